@@ -14,6 +14,8 @@
 using namespace MASA;
 
 std::vector<System>& e1_systems() { static std::vector<System> v; return v; }
+static std::map<std::string, long> g_counts;
+void e1_count(const std::string& key) { g_counts[key]++; }
 
 // ---------------------------------------------------------------------------------------------
 static std::string g_capfile;
@@ -132,15 +134,15 @@ struct Runner {
       else {
         errq = qabs(lq - e.ref.v); Q sc = (Q)u * e.ref.s;
         ratio = (sc > 0) ? (double)(errq / sc) : (errq == 0 ? 0.0 : 1e300);
-        if (ratio > st.maxratio) st.maxratio = ratio;
         if (ratio > O.K) {
           bad = true; why = "differs from reference";
           if (!e.alt_id.empty()) {
             Q ea = qabs(lq - e.alt.v); Q sa = (Q)u * (e.alt.s > e.ref.s ? e.alt.s : e.ref.s);
             double ra = (sa > 0) ? (double)(ea / sa) : (ea == 0 ? 0.0 : 1e300);
-            if (ra <= O.K) { known[e.alt_id + "|" + C.sys->name + "|" + e.fn + "/" + e.sig + "|" + scal]++; st.nknown++; bad = false; }
+            if (ra <= O.K) { known[e.alt_id + "|" + C.sys->name + "|" + e.fn + "/" + e.sig + "|" + scal]++; st.nknown++; bad = false; ratio = ra; errq = ea; }
           }
         }
+        if (!bad && ratio > st.maxratio) st.maxratio = ratio;
       }
     }
     if (bad) {
@@ -194,17 +196,20 @@ static void build_ctx(Ctx& C, const System& sys, int tier) {
   C.sys = &sys;
   capture([&] { masa_init<LD>("e1", sys.name); masa_init<double>("e1", sys.name); });
   std::vector<std::string> names = param_names();
-  C.base = generic_base(names, O.seed);
-  if (sys.base) sys.base(C.base);
-  if (sys.derive) sys.derive(C.base);
   C.dflt.clear();
   for (auto& n : names) C.dflt.push_back((LD)(double)masa_get_param<LD>(n));
+  C.base = generic_base(names, O.seed);
+  if (sys.base_from_default)
+    for (size_t i = 0; i < names.size(); i++) C.base.m[names[i]] = dyround(C.dflt[i] * (1.0L + 0.07L * (LD)frac((i + 1 + 13 * (O.seed % 4)) * 0.6180339887498949)));
+  if (sys.base) sys.base(C.base);
+  if (sys.derive) sys.derive(C.base);
   C.pts = sys.points(tier);
   C.alpha.assign(names.size(), {});
   for (size_t i = 0; i < names.size(); i++) {
     if (std::find(sys.frozen.begin(), sys.frozen.end(), names[i]) != sys.frozen.end()) continue;
     LD b = C.base.m[names[i]];
     std::vector<LD> cand = {C.dflt[i], 0.0L, -b, 2 * b + 0.125L};
+    if (sys.alphabet) cand = sys.alphabet(names[i], b, C.dflt[i]);
     for (LD v : cand) {
       if (v == b) continue;
       if (!(v == v) || std::isinf(v)) continue;
@@ -237,6 +242,7 @@ static int run_system(const System& sys, int tier, FILE* out, double t_end) {
     pid_t pid = fork();
     if (pid == 0) {
       FILE* fo = fopen(f.c_str(), "w"); g_capfile = O.out + ".cap." + std::to_string(w);
+      g_counts.clear();
       Runner R(C, fo, w == 0 ? 6 : 0);
       int stop_level = 99; size_t last = 0; bool timed_out = false;
       for (size_t i = w; i < C.as.size(); i += W) {
@@ -245,6 +251,7 @@ static int run_system(const System& sys, int tier, FILE* out, double t_end) {
       }
       (void)stop_level;
       for (auto& kv : R.stats) fprintf(fo, "{\"k\":\"stat\",\"key\":\"%s\",\"n\":%ld,\"maxratio\":%.6g,\"nviol\":%ld,\"nknown\":%ld}\n", kv.first.c_str(), kv.second.n, kv.second.maxratio, kv.second.nviol, kv.second.nknown);
+      for (auto& kv : g_counts) fprintf(fo, "{\"k\":\"count\",\"system\":\"%s\",\"key\":\"%s\",\"n\":%ld}\n", sys.name.c_str(), kv.first.c_str(), kv.second);
       for (auto& kv : R.known) fprintf(fo, "{\"k\":\"known\",\"key\":\"%s\",\"n\":%ld}\n", kv.first.c_str(), kv.second);
       fprintf(fo, "{\"k\":\"worker\",\"system\":\"%s\",\"states\":%ld,\"transitions\":%ld,\"comparisons\":%ld,\"inadmissible\":%ld,\"done\":%ld,\"timed_out\":%s,\"stopped_at\":%zu}\n", sys.name.c_str(), R.states, R.transitions, R.comparisons, R.inadmissible, R.done, timed_out ? "true" : "false", timed_out ? last : C.as.size());
       fclose(fo); unlink(g_capfile.c_str()); _exit(0);
